@@ -39,7 +39,7 @@ FUNCTIONS = ['codegen_outerexp/outersin/outercos/outertan', 'codegen_sqrt', 'Mul
 ASSUMPTIONS = ['coefficients are reals', 'float constants in generated code (1/k! as 0.1666...) snapped to rationals within 1e-12 relative',
                'sqrt: Study number with positive scalar part, radicands non-negative; divisions: denominators non-zero',
                'exp: cosh, sinh, cos, sinc are uninterpreted functions (no transcendental theory): branch selection, arguments and blade placement are proved, the power-series identity is trusted']
-BOUNDS = {'quick': 'all (p,q,r) d<=3 and selected d=4; outer series on scalar-free patterns (grade unions, random sparse, dense bivector d<=4); sqrt on scalar+blade and scalar+bivectors(3-D); exp on every single-blade pattern and 2-blade commuting patterns',
+BOUNDS = {'quick': 'all (p,q,r) d<=3 and selected d=4; outer series on scalar-free patterns (grade unions, random sparse, dense bivector d<=4); sqrt on scalar+blade and scalar+bivectors(3-D); exp on every single-blade pattern and 2-blade commuting patterns; concrete norms (python and numpy reals, both signs of normsq); exp with ndarray coefficients (0-d, 1 and 3 entries)',
           'thorough': 'all (p,q,r) d<=4, d=5,6 sparse'}
 OUTSIDE = ['cosh/sinh/cos/sinc = their power series', 'complex coefficients / negative a^2 - B^2', 'outertan of dense operands in d >= 5', 'outerexp of operands WITH scalar part (kingdon truncates and warns)',
            'exp() on numpy-array coefficients beyond the concrete shapes sampled by the exp-ndarray kind (one coefficient; 0-d, 1 and 3 entries)']
